@@ -77,7 +77,10 @@ func VerifC11RegistrarHavoc() {
 	pairs = append(pairs, [2]int{nd, nd})
 	pr := pairs[verifnd.Choose("deviating-dimensions", len(pairs))] // sharded
 	dims := []int{pr[0], pr[1]}
-	if verifnd.Thorough() && pr[1] < nd {
+	if verifnd.Thorough() && pr[1] < 4 {
+		// thorough: a third deviating dimension for the pairs within the first four dimensions
+		// (secret, transport, parameters, library version / families); every triple did not
+		// finish within the 40-minute budget per shard
 		dims = append(dims, pr[1]+1+verifnd.Choose("third-dimension", nd-pr[1]))
 	}
 	vals := make([]int, nd)
